@@ -6,8 +6,10 @@ loaded by the real code twice — `c14_cnf` (real read_cnf + dispatch_global_env
 getters, no side effect) and `config_load` (real from_file + MainEventLoop::new + dump) — resolved by
 the Lean model (`c14_load` = Config.loadTree/startUp) and judged by `c14_judge`
 (Spec.C14.holdsTree / holdsSettings / holdsGlobal).  Which files an include pattern names is worked
-out by this harness on the directory it has just made (component-wise walk with fnmatch, sorted
-names; canonical path = os.path.realpath), independently of the `glob` crate."""
+out by the COMPOSED Lean model (Model/ConfigGlob: the loader with Model/Glob as its resolver) from the
+listing of the directory as walked (ops c14_load_glob / c14_judge_glob); this harness's own walker
+(component-wise fnmatch over sorted names; canonical path = os.path.realpath) + `c14_load` is kept as
+a third opinion, independent of the `glob` crate and of Model/Glob."""
 import concurrent.futures
 import copy
 import fnmatch
@@ -29,11 +31,13 @@ FINISH = dict(
         "(Gen/GlobalMerge.lean; theorems later_global_wins_full, model_options_match_source, every_source_option_accounted_for)",
         "in-crate probe ops c14_cnf (real read_cnf, dispatch_global_env_vars, Certificate::get_*), "
         "config_load (real from_file + MainEventLoop::new), c14_defaults",
-        "this harness's resolution of include patterns on the directory it created (fnmatch over sorted "
-        "names, os.path.realpath) and its TOML emitter (py/cfggen.py)",
-        "modelled, not verified: toml/serde decoding and canonicalize (their results are inputs of Model/Config; the "
-        "glob crate's matching and directory walk are modelled in Model/Glob and tied to the real get_cnf_path by "
-        "py/ext/globinc.py, its directory I/O is trusted), the meaning of option values (durations are normalised to seconds by the "
+        "this harness's listing of the directory it created (os.walk, os.path.realpath for link targets; the "
+        "include patterns are resolved by Model/Glob inside the composed model Model/ConfigGlob, the harness "
+        "walker glob_walk is only a third opinion) and its TOML emitter (py/cfggen.py)",
+        "modelled, not verified: toml/serde decoding (its result is an input of Model/ConfigGlob), canonicalize (= the "
+        "listing's link resolution Glob.statPath), the glob crate's matching and directory walk (Model/Glob, tied "
+        "to the real get_cnf_path by py/ext/globinc.py and, composed with the loader, by the tree check itself; its "
+        "directory I/O is trusted), the meaning of option values (durations are normalised to seconds by the "
         "model of parse_duration, Model/Period.lean, proved in C19)",
     ],
     rule="(1) exhaustive presence patterns: for renew_delay, random_early_renew, file_name_format all 2^3 "
@@ -77,6 +81,15 @@ FINISH["rule"] += (
     "chains, a cycle and a repeated file one below / at / above MAX_INCLUDE_DEPTH; group chains around "
     "MAX_HOOK_GROUP_DEPTH; flat, doubling and hollow groups around MAX_HOOK_GROUP_MEMBERS visited members, on a "
     "certificate and on an account."
+)
+
+FINISH["rule"] += (
+    " (7) every tree reaches the model as a LISTING (os.walk of the realised tree, links with their final target), the "
+    "emitter's own data under each file's canonical path with the include PATTERNS as written, and the main path as "
+    "given: the composed Lean model (Model/ConfigGlob = the loader with Model/Glob as resolver and the listing's link "
+    "resolution as canonicalize; ops c14_load_glob / c14_judge_glob) resolves the patterns itself. The harness walker "
+    "glob_walk + c14_load is a third opinion on every tree (counters resolver:*): when the two predictions differ "
+    "the real read_cnf arbitrates (no-longer-checks class `walker` or `catalogue`)."
 )
 
 ROOT = "@ROOT@"
@@ -268,6 +281,48 @@ def realise(spec, root):
     main_path = os.path.join(root, spec.get("main", "main.toml"))
     tree = {"main": ident(main_path), "files": files}
     return main_path, json.loads(json.dumps(tree).replace(ROOT, root))
+
+
+def comps(path):
+    return [c for c in path.split("/") if c]
+
+
+def fs_listing(root):
+    """The realised tree as os.walk finds it, in the listing format of Drv/Glob.lean: every directory from
+    `root` down with its entries (as the OS lists them; symbolic links with the components of their final
+    target, none when they dangle), every parent of `root` with the one entry on the way."""
+    top = os.path.realpath(root)
+    cs = comps(top)
+    L = [{"path": cs[:i], "list": True, "search": True, "entries": [[cs[i], "d", None]]} for i in range(len(cs))]
+    for dirpath, _dirs, _files in os.walk(top, followlinks=False):
+        entries = []
+        for name in os.listdir(dirpath):
+            p = os.path.join(dirpath, name)
+            if os.path.islink(p):
+                entries.append([name, "l", comps(os.path.realpath(p)) if os.path.exists(p) else None])
+            elif os.path.isdir(p):
+                entries.append([name, "d", None])
+            else:
+                entries.append([name, "f", None])
+        L.append({"path": comps(dirpath), "list": True, "search": True, "entries": entries})
+    return L
+
+
+def glob_input(spec, root, main_path):
+    """Input of the composed model (c14_load_glob / c14_judge_glob): the listing of the realised tree, what every
+    file the emitter wrote decodes to (the emitter's own data) under its canonical path with the include
+    PATTERNS as written, the main path as given to the daemon.  Nothing here resolves a pattern."""
+    files = []
+    for i, (rel, cfg) in enumerate(spec["files"].items()):
+        f = model_file(i, cfg, [])
+        del f["includes"]
+        f["path"] = comps(os.path.realpath(os.path.join(root, rel)))
+        f["include"] = list(cfg.get("include", []))
+        files.append(f)
+    g = {"files": files, "main_path": main_path}
+    g = json.loads(json.dumps(g).replace(ROOT, root))
+    g["fs"] = fs_listing(root)
+    return g
 
 
 def norm_global(g):
@@ -1329,17 +1384,94 @@ def multiset(xs):
     return sorted(json.dumps(x, sort_keys=True) for x in xs)
 
 
+def section_pairs(c, m):
+    return [("endpoints", c["endpoints"], m["endpoints"]), ("rate_limits", c["rate_limits"], m["rate_limits"]),
+            ("hooks", c["hooks"], m["hooks"]), ("groups", c["groups"], m["groups"]),
+            ("accounts", [x["name"] for x in c["accounts"]], m["accounts"]),
+            ("certificates", ["%s_%s" % (x["crt_name"], x["key_type"]) for x in c["certificates"]], m["certificates"])]
+
+
+def code_agrees(m, a, ja, have_settings):
+    """Does the real read_cnf outcome `a` pass the comparisons check_specs makes under (a), against the prediction
+    `m` and the judge's verdict `ja` for the same resolution of the includes?"""
+    if crashed(a) or ja is None or "holds" not in ja:
+        return False
+    if "rejected" in a:
+        return bool(ja["holds"])
+    if "load_error" in m:
+        return False
+    if have_settings and not ja.get("must_reject") and not ja["holds"]:
+        return False
+    if not ja.get("global_holds", True) or not ja.get("env_holds", True):
+        return False
+    if any(multiset(got) != multiset(want) for _, got, want in section_pairs(a["cnf"], m)):
+        return False
+    return len(a["cnf"]["loaded"]) == len(m["order"])
+
+
+PREDICTION = ("load_error", "order", "global", "endpoints", "rate_limits", "hooks", "groups", "accounts", "certificates", "build")
+
+
+def third_opinion(ctx, tag, real, cnf, specs, mops, mres, index):
+    """The composed model (c14_load_glob: Model/Glob resolves the includes) against this harness's walker
+    (glob_walk + c14_load), the real read_cnf as the arbiter.  Returns {k: (what, detail)} for ctx.broke:
+    "walker" = the walker is the odd one out (or the two differ where the code's outcome does not decide),
+    "catalogue" = the composed model disagrees with the code AND with the walker, which agrees with the code."""
+    differ, wops, widx, out = [], [], {}, {}
+    for k, ((root, mp, tree), a, s) in enumerate(zip(real, cnf, specs)):
+        m, w = mres[index[k]["load"]], mres[index[k]["walk"]]
+        nfiles = len(tree["files"])
+        norm = lambda ll: [[["unreadable" if x >= nfiles else x for x in l] for l in f] for f in ll]
+        same_res = norm(m.get("resolved", [])) == norm([f["includes"] for f in tree["files"]])
+        if {x: m.get(x) for x in PREDICTION} == {x: w.get(x) for x in PREDICTION}:
+            ctx.count(tag + ("resolver:walker-agrees" if same_res else "resolver:walker-differs-on-unread-files"))
+            if not same_res:
+                out[k] = ("walker", "the harness walker glob_walk and Model/Glob resolve an include differently, in a file "
+                                    "the loader never reads (same prediction: the real read_cnf cannot arbitrate)")
+            continue
+        differ.append(k)
+        if "cnf" in index[k]:
+            jop = {x: v for x, v in mops[index[k]["cnf"]].items() if x not in ("fs", "main_path", "files")}
+            widx[k] = len(wops)
+            wops.append(dict(jop, op="c14_judge", main=tree["main"], files=tree["files"]))
+    wres = par_model(wops) if wops else []
+    for k in differ:
+        ctx.disagreements += 1
+        if k not in widx:
+            ctx.count(tag + "resolver:differ-no-arbiter")
+            out[k] = ("walker", "the harness walker glob_walk and the composed model resolve the includes differently; "
+                                "the real code crashed and cannot arbitrate")
+            continue
+        jop = mops[index[k]["cnf"]]
+        ok_m = code_agrees(mres[index[k]["load"]], cnf[k], mres[index[k]["cnf"]], jop["have_settings"])
+        ok_w = code_agrees(mres[index[k]["walk"]], cnf[k], wres[widx[k]], jop["have_settings"])
+        ctx.count(tag + "resolver:differ:model-%s:walker-%s" % ("agrees" if ok_m else "differs", "agrees" if ok_w else "differs"))
+        if ok_m and not ok_w:
+            out[k] = ("walker", "the harness walker glob_walk resolves the includes differently from Model/Glob; the real "
+                                "read_cnf agrees with the composed model (c14_load_glob), not with glob_walk + c14_load")
+        elif ok_w and not ok_m:
+            out[k] = ("catalogue", "the composed model (Model/Glob inside the loader, c14_load_glob) disagrees with the real "
+                                   "read_cnf, which agrees with the harness walker glob_walk + c14_load")
+        elif ok_m and ok_w:
+            out[k] = ("walker", "the harness walker glob_walk and the composed model resolve the includes differently, in a "
+                                "way the compared outcome of the real read_cnf does not decide")
+        # neither agrees: the comparison with the code below reports it
+    return out
+
+
 def check_specs(ctx, specs, scratch, tag=""):
     """Realises, runs, judges.  Returns the number of violations added."""
     n0 = len(ctx.violations)
     dflt = get_defaults()
     jd = {"renew_delay": dflt["renew_delay"], "random_early_renew": dflt["random_early_renew"],
           "file_name_format": dflt["file_name_format"], "certificates_directory": dflt["certificates_directory"]}
-    real = []
+    scratch = os.path.realpath(scratch)      # absolute includes are written with this path: the listing has no link above
+    real, ginp = [], []
     for i, s in enumerate(specs):
         root = os.path.join(scratch, "t%d" % i)
         main_path, tree = realise(s, root)
         real.append((root, main_path, tree))
+        ginp.append(glob_input(s, root, main_path))
     # (a) the real read_cnf + getters, no side effects
     cnf = par_probe([{"op": "c14_cnf", "path": mp} for _, mp, _ in real])
     # (b) the real start-up, unless it would touch the built-in directories outside the scratch area
@@ -1358,14 +1490,18 @@ def check_specs(ctx, specs, scratch, tag=""):
     # model and judge
     mops, index = [], []
     for k, ((root, mp, tree), a, b, s) in enumerate(zip(real, cnf, boot, specs)):
-        common = {"main": tree["main"], "files": tree["files"], "defaults": jd}
+        # the model's input: listing + decoded contents + main path; the include patterns are resolved in Lean
+        common = dict(ginp[k], defaults=jd)
         index.append({})
         index[k]["load"] = len(mops)
-        mops.append(dict(common, op="c14_load"))
+        mops.append(dict(common, op="c14_load_glob"))
+        # third opinion: the same tree with the includes resolved by this harness's walker
+        index[k]["walk"] = len(mops)
+        mops.append({"main": tree["main"], "files": tree["files"], "defaults": jd, "op": "c14_load"})
         if isinstance(a, dict) and "cnf" in a:
             getters_ok = all("ok" in c[f] for c in a["cnf"]["certificates"]
                              for f in ("renew_delay", "random_early_renew", "file_name_format"))
-            op = dict(common, op="c14_judge", judge_global=True, obs_raw=True,
+            op = dict(common, op="c14_judge_glob", judge_global=True, obs_raw=True,
                       global_obs=obs_global_from_cnf(a["cnf"]), settings_only=True)
             if getters_ok:
                 cs = a["cnf"]["certificates"]
@@ -1382,7 +1518,7 @@ def check_specs(ctx, specs, scratch, tag=""):
             mops.append(op)
         elif isinstance(a, dict) and "rejected" in a:
             index[k]["cnf"] = len(mops)
-            mops.append(dict(common, op="c14_judge", settings_only=True, outcome={"rejected": True}, have_settings=True))
+            mops.append(dict(common, op="c14_judge_glob", settings_only=True, outcome={"rejected": True}, have_settings=True))
         if b is not None and isinstance(b, dict) and ("loaded" in b or "rejected" in b):
             if "loaded" in b:
                 outcome = {"started": [{"id": c["id"], "renew_delay": c["renew_delay"],
@@ -1391,7 +1527,7 @@ def check_specs(ctx, specs, scratch, tag=""):
                                         "directory": c["crt_directory"]} for c in b["loaded"]["certificates"]]}
             else:
                 outcome = {"rejected": True}
-            op = dict(common, op="c14_judge", outcome=outcome)
+            op = dict(common, op="c14_judge_glob", outcome=outcome)
             if "loaded" in b and s.get("plain"):
                 og = obs_global_from_dump(b["loaded"], s["plain"], dflt)
                 if og is not None:
@@ -1399,12 +1535,13 @@ def check_specs(ctx, specs, scratch, tag=""):
             index[k]["boot"] = len(mops)
             mops.append(op)
     mres = par_model(mops)
+    third = third_opinion(ctx, tag, real, cnf, specs, mops, mres, index)
     for k, ((root, mp, tree), a, b, s) in enumerate(zip(real, cnf, boot, specs)):
         strip = len(root)
         label = s["label"]
         kind = s.get("kind", "?")
         m = mres[index[k]["load"]]
-        n_inc = sum(len(l) for f in tree["files"] for l in f["includes"])
+        n_inc = sum(len(l) for f in m.get("resolved", []) for l in f)
         ctx.case({"tree": s["files"], "main": s.get("main"), "links": s.get("symlinks"), "raw": s.get("raw")},
                  nontrivial=(n_inc > 0 or kind in ("pattern", "hazard")))
         ctx.count(tag + "kind:" + kind)
@@ -1417,6 +1554,12 @@ def check_specs(ctx, specs, scratch, tag=""):
             mclass = "started"
         ctx.count(tag + "model:" + mclass)
         rep = {"spec": s, "cnf": a, "startup": b, "model": m}
+        if not m.get("wf") or not m.get("glob_ends"):
+            ctx.broke("catalogue", "%s: the listing handed to the composed model is not one a directory tree gives, or a "
+                      "pattern exhausted the fuel of the model's walk (wf=%s, glob_ends=%s)" % (label, m.get("wf"), m.get("glob_ends")), rep)
+        if k in third:
+            ctx.broke(third[k][0], "%s: %s" % (label, third[k][1]), dict(rep, walker_model=mres[index[k]["walk"]],
+                                                                      walker_tree=tree))
 
         def viol(desc, extra=None, informational=(kind == "dupname")):
             if informational:
